@@ -32,6 +32,13 @@ pub enum DnOp {
     New { slot: usize },
     /// remove the first attribute and push it back with the same value: same content, new order
     Rotate { slot: usize },
+    /// `times` x (push ty; remove ty) on one name object, checked after every step: a long
+    /// edit history in compact form
+    Churn { slot: usize, ty: DnTypeR, times: u32 },
+    /// slot `to` becomes a clone of `from` that differs in one tiny aspect of one attribute:
+    /// 0 = case of one ASCII letter, 1 = same text in another string kind, 2 = a trailing space,
+    /// 3 = the type replaced by a custom type with the same OID. The two must compare unequal.
+    NearTwin { from: usize, to: usize, variant: u8 },
     Encode { slot: usize, how: EncodeHow },
 }
 
@@ -115,6 +122,24 @@ impl Engine for DnSim {
             ops.push(DnOp::Encode { slot: 0, how });
             return DnTrace { hash_seed, slots: 1, small: true, ops };
         }
+        if mode == "long" {
+            // one name object with a very long edit history (more first-insertions than any
+            // 16-bit counter holds), a few attributes staying alive throughout
+            let keep: Vec<DnTypeR> = (0..r.range(1, 3)).map(|_| gen_dn_type(&mut r)).collect();
+            let mut ops: Vec<DnOp> = keep.iter().map(|t| DnOp::Push { slot: 0, ty: t.clone(), val: gen_dn_value(&mut r, 6) }).collect();
+            let mut left: u32 = *r.pick(&[70_000u32, 100_000, 140_000]);
+            while left > 0 {
+                let n = (r.range(1, 40_000) as u32).min(left);
+                ops.push(DnOp::Churn { slot: 0, ty: gen_dn_type(&mut r), times: n });
+                left -= n;
+                if r.chance(1, 2) {
+                    ops.push(DnOp::Push { slot: 0, ty: gen_dn_type(&mut r), val: gen_dn_value(&mut r, 6) });
+                }
+            }
+            ops.push(DnOp::Push { slot: 0, ty: DnTypeR::Custom(vec![2, 5, 4, 99]), val: DnValueR::Utf8("last".into()) });
+            ops.push(DnOp::Encode { slot: 0, how: EncodeHow::SelfSigned });
+            return DnTrace { hash_seed, slots: 1, small: false, ops };
+        }
         // wide alphabet: a per-run pool of types (so re-push / remove-then-push actually happen)
         let slots = r.range(1, 3) as usize;
         let pool_n = r.range(2, 7) as usize;
@@ -131,9 +156,10 @@ impl Engine for DnSim {
                 15 => DnOp::Iter { slot },
                 16 => DnOp::CloneTo { from: slot, to: r.usize(slots) },
                 17 => DnOp::Eq { a: slot, b: r.usize(slots) },
-                18 => match r.below(4) {
+                18 => match r.below(8) {
                     0 => DnOp::New { slot },
                     1 => DnOp::Iter { slot },
+                    2 | 3 => DnOp::NearTwin { from: slot, to: r.usize(slots), variant: r.below(4) as u8 },
                     _ => DnOp::Rotate { slot },
                 },
                 _ => DnOp::Encode {
@@ -161,7 +187,7 @@ impl Engine for DnSim {
         // every type the history mentions, for the lookup check
         let mut universe: Vec<DnTypeR> = Vec::new();
         for op in &t.ops {
-            if let DnOp::Push { ty, .. } | DnOp::Remove { ty, .. } | DnOp::Get { ty, .. } = op {
+            if let DnOp::Push { ty, .. } | DnOp::Remove { ty, .. } | DnOp::Get { ty, .. } | DnOp::Churn { ty, .. } = op {
                 if !universe.contains(ty) {
                     universe.push(ty.clone());
                 }
@@ -279,6 +305,13 @@ impl Engine for DnSim {
                         }
                     }
                 }
+                DnOp::Churn { slot, ty, times } if *times > 1 => {
+                    for nt in [*times / 2, *times - 1] {
+                        let mut c = t.clone();
+                        c.ops[i] = DnOp::Churn { slot: *slot, ty: ty.clone(), times: nt };
+                        v.push(c);
+                    }
+                }
                 DnOp::Encode { slot, how } if *how != EncodeHow::SelfSigned => {
                     let mut c = t.clone();
                     c.ops[i] = DnOp::Encode { slot: *slot, how: EncodeHow::SelfSigned };
@@ -298,7 +331,12 @@ impl Engine for DnSim {
                     | DnOp::Get { slot, .. }
                     | DnOp::Iter { slot }
                     | DnOp::Rotate { slot }
+                    | DnOp::Churn { slot, .. }
                     | DnOp::New { slot } => *slot = 0,
+                    DnOp::NearTwin { from, to, .. } => {
+                        *from = 0;
+                        *to = 0;
+                    }
                     DnOp::Encode { slot, how } => {
                         *slot = 0;
                         if let EncodeHow::SignedBy { issuer } = how {
@@ -336,6 +374,8 @@ fn op_tag(op: &DnOp) -> String {
         DnOp::Eq { a, b } => format!("eq {a} {b}"),
         DnOp::New { slot } => format!("new[{slot}]"),
         DnOp::Rotate { slot } => format!("rotate[{slot}]"),
+        DnOp::Churn { slot, ty, times } => format!("churn[{slot}] {:?} x{times}", ty),
+        DnOp::NearTwin { from, to, variant } => format!("near-twin {from}->{to} v{variant}"),
         DnOp::Encode { slot, how } => format!("encode[{slot}] {:?}", how),
     }
 }
@@ -413,6 +453,83 @@ fn apply(
                 real[*slot].push(ty.build(), val.build());
                 model[*slot].push((ty, val));
             }
+        }
+        DnOp::Churn { slot, ty, times } => {
+            let val = DnValueR::Utf8("churn".into());
+            let already = model[*slot].iter().any(|(t, _)| t == ty);
+            for k in 0..*times {
+                real[*slot].push(ty.build(), val.build());
+                model_push(&mut model[*slot], ty, &val);
+                check_iter(&real[*slot], &model[*slot]).map_err(|(c, d)| (c, format!("churn round {k} after push: {d}")))?;
+                if already {
+                    continue; // the type is one of the long-lived ones: only re-pushes
+                }
+                if !real[*slot].remove(ty.build()) {
+                    return fail("dn-remove-result", format!("churn round {k}: remove of a present attribute returned false"));
+                }
+                model[*slot].retain(|(t, _)| t != ty);
+                check_iter(&real[*slot], &model[*slot]).map_err(|(c, d)| (c, format!("churn round {k} after remove: {d}")))?;
+            }
+            o.count("churn_rounds", *times as u64);
+        }
+        DnOp::NearTwin { from, to, variant } => {
+            // pick the first attribute whose value can be varied this way
+            let src = model[*from].clone();
+            let mut twin = None;
+            for (idx, (ty, val)) in src.iter().enumerate() {
+                let text = match val {
+                    DnValueR::Bmp(s) | DnValueR::Ia5(s) | DnValueR::Printable(s) | DnValueR::Teletex(s) | DnValueR::Universal(s) | DnValueR::Utf8(s) => s.clone(),
+                };
+                let rebuild = |s: String| match val {
+                    DnValueR::Bmp(_) => DnValueR::Bmp(s),
+                    DnValueR::Ia5(_) => DnValueR::Ia5(s),
+                    DnValueR::Printable(_) => DnValueR::Printable(s),
+                    DnValueR::Teletex(_) => DnValueR::Teletex(s),
+                    DnValueR::Universal(_) => DnValueR::Universal(s),
+                    DnValueR::Utf8(_) => DnValueR::Utf8(s),
+                };
+                let cand: Option<(DnTypeR, DnValueR)> = match variant {
+                    0 => text.char_indices().find(|(_, c)| c.is_ascii_alphabetic()).map(|(i, c)| {
+                        let mut t2 = text.clone();
+                        let flipped = if c.is_ascii_uppercase() { c.to_ascii_lowercase() } else { c.to_ascii_uppercase() };
+                        t2.replace_range(i..i + 1, &flipped.to_string());
+                        (ty.clone(), rebuild(t2))
+                    }),
+                    1 => {
+                        // printable-safe text can live in several kinds
+                        let safe = text.bytes().all(|b| b.is_ascii_alphanumeric() || b == b' ');
+                        if safe {
+                            Some((ty.clone(), if matches!(val, DnValueR::Utf8(_)) { DnValueR::Printable(text.clone()) } else { DnValueR::Utf8(text.clone()) }))
+                        } else {
+                            None
+                        }
+                    }
+                    2 => Some((ty.clone(), rebuild(format!("{text} ")))),
+                    _ => match ty {
+                        DnTypeR::Custom(_) => None,
+                        std => Some((DnTypeR::Custom(std.oid()), val.clone())),
+                    },
+                };
+                if let Some(c) = cand {
+                    twin = Some((idx, c));
+                    break;
+                }
+            }
+            let Some((idx, (nty, nval))) = twin else { return Ok(()) };
+            // build the twin by the same pushes, with the one difference
+            let mut dn = rcgen::DistinguishedName::new();
+            let mut m: Vec<(DnTypeR, DnValueR)> = Vec::new();
+            for (k, (ty, val)) in src.iter().enumerate() {
+                let (ty, val) = if k == idx { (&nty, &nval) } else { (ty, val) };
+                if m.iter().any(|(t, _)| t == ty) {
+                    return Ok(()); // the custom twin of the type is already present: no clean twin
+                }
+                dn.push(ty.build(), val.build());
+                m.push((ty.clone(), val.clone()));
+            }
+            real[*to] = dn;
+            model[*to] = m;
+            o.count("near_twins", 1);
         }
         DnOp::Encode { slot, how } => {
             o.count("encodes", 1);
